@@ -98,3 +98,10 @@ CHECKS.update({
          "text": "per (goal kind, strategy, mixin, mode) every value of lo/hi/e/ylo/weights and both oracle behaviours explored (Confirmed over all paths): true optimum, lexicographic optimum, boxed optima, exact Pareto front, None iff unsat, assertion stack list and depth restored",
          "note": "domains BV(2) (quick) / BV(3) (thorough) and Int in [-2,2]; oracle = exhaustive enumerator evaluated with the reference evaluator"},
 })
+
+CHECKS.update({
+ "C17": {"level": "model_checking", "engine": "XH",
+         "technique": "CrossHair over symbolic call codes: the real SmtLibSolver drives a strict in-memory reference solver (scoped declarations, z3 for check-sat/get-value) substituted for the subprocess",
+         "text": "all legal call histories up to the bound: command stream legal per SMT-LIB scoping, no command sent while a reply is unread, no API error, verdicts equal the truth of the intended live assertions, models complete and satisfying, shortcuts truthful",
+         "note": "synchronous stand-in: real pipes, buffering and process death are outside; formulas over Bool/BV(2)"},
+})
